@@ -361,3 +361,19 @@ package floatingip
 //@   ensures [C02:bykey-all-nonnil-without-ranges] len(ipranges) == 0 ==> forall j int :: 0 <= j && j < len(result0) ==> result0[j] != nil
 //@   ensures result0 == nil || fresh(result0)
 //@   modifies fresh FloatingIPInfo.*, fresh nets.IPNet.*, fresh mapsof(map[string]sets.Empty), fresh elemsof(string), fresh elemsof(*FloatingIPInfo), fresh elemsof(byte)
+
+// ---- ByPrefix: read-only listing of the entries whose key has the prefix (plus the free ones for "") ----
+//@ pure infoOfEntry(ci *crdIpam, info *FloatingIPInfo) bool = (ipstr(info.FloatingIP.IP) in ci.allocatedFIPs && info.FloatingIP.Key == ci.allocatedFIPs[ipstr(info.FloatingIP.IP)].Key && info.FloatingIP.PodUid == ci.allocatedFIPs[ipstr(info.FloatingIP.IP)].PodUid && info.FloatingIP.NodeName == ci.allocatedFIPs[ipstr(info.FloatingIP.IP)].NodeName && info.FloatingIP.Policy == ci.allocatedFIPs[ipstr(info.FloatingIP.IP)].Policy) || (ipstr(info.FloatingIP.IP) in ci.unallocatedFIPs && info.FloatingIP.Key == "")
+//@ func [C03,C07,C11] (*crdIpam).ByPrefix
+//@   requires inv(ci) && synced(ci) && held[ptr(ci.cacheLock)] == 0
+//@   ensures [C03,C11:byprefix-lists-table-entries] result1 == nil && forall j int :: 0 <= j && j < len(result0) ==> result0[j] != nil && fresh(result0[j]) && infoOfEntry(ci, result0[j]) && (hasPrefix(result0[j].FloatingIP.Key, prefix) || prefix == "")
+//@   ensures result0 == nil || fresh(result0)
+//@   modifies fresh FloatingIPInfo.*, fresh nets.IPNet.*, fresh mapsof(map[string]sets.Empty), fresh elemsof(string), fresh elemsof(*FloatingIPInfo)
+//@   loop 0,1 invariant sameElems(fips) && (fips == nil || fresh(fips)) && forall j int :: 0 <= j && j < len(fips) ==> fips[j] != nil && fresh(fips[j]) && infoOfEntry(ci, fips[j]) && (hasPrefix(fips[j].FloatingIP.Key, prefix) || prefix == "")
+//@ func (IPAM).ByPrefix trusted
+//@   let ci = as(crdIpam, self)
+//@   let prefix = arg0
+//@   requires inv(ci) && synced(ci) && held[ptr(ci.cacheLock)] == 0
+//@   ensures [C03,C11:byprefix-lists-table-entries] result1 == nil && forall j int :: 0 <= j && j < len(result0) ==> result0[j] != nil && fresh(result0[j]) && infoOfEntry(ci, result0[j]) && (hasPrefix(result0[j].FloatingIP.Key, prefix) || prefix == "")
+//@   ensures result0 == nil || fresh(result0)
+//@   modifies fresh FloatingIPInfo.*, fresh nets.IPNet.*, fresh mapsof(map[string]sets.Empty), fresh elemsof(string), fresh elemsof(*FloatingIPInfo)
